@@ -54,8 +54,10 @@ def binary_tags(outs):
     return res, False
 
 
-def dyn_slot_tags(outs, labels, ncl, xslot):
+def dyn_slot_tags(outs, labels, ncl, xslot, weights=None):
+    """`weights`: example i stands for weights[i] identical examples (a multiset of examples)"""
     ns = ncl * xslot
+    weights = weights if weights is not None else [1] * len(outs)
     last = ns - 1
 
     def slot(o):
@@ -66,8 +68,8 @@ def dyn_slot_tags(outs, labels, ncl, xslot):
 
     mat = [[0] * ncl for _ in range(ns)]
     slots = [slot(o) for o in outs]
-    for s, l in zip(slots, labels):
-        mat[s][l] += 1
+    for s, l, w in zip(slots, labels, weights):
+        mat[s][l] += w
     unknown = ncl
     cls = []
     for row in mat:
@@ -105,10 +107,12 @@ class GaussStats:
         self.ambiguous = []         # reasons
 
 
-def gaussian_tags(outs, labels, ncl, st=None):
-    """-> ([(label, confidence, tolerance)], ambiguous?)"""
+def gaussian_tags(outs, labels, ncl, st=None, weights=None):
+    """-> ([(label, confidence, tolerance)], ambiguous?)
+    `weights`: example i stands for weights[i] identical examples (the statistics are those of the multiset)"""
     st = st if st is not None else GaussStats()
     n = len(outs)
+    wt = weights if weights is not None else [1] * n
     vals = []
     for o in outs:
         v = 0.0 if o is None else o
@@ -125,18 +129,19 @@ def gaussian_tags(outs, labels, ncl, st=None):
             st.ambiguous.append("empty-class")
             return [], True
         vs = [Fraction(vals[i]) for i in idx]
-        mean = sum(vs) / len(vs)
-        var = sum((v - mean) ** 2 for v in vs) / len(vs)
+        cnt = sum(wt[i] for i in idx)
+        mean = sum(v * wt[i] for v, i in zip(vs, idx)) / cnt
+        var = sum(wt[i] * (v - mean) ** 2 for v, i in zip(vs, idx)) / cnt
         maxabs = max(abs(vals[i]) for i in idx)
         allsame = all(vals[i] == vals[idx[0]] for i in idx)
         # error bound of the on-line mean (0 when every value is the same: delta == 0 at every step)
-        dm = 0.0 if allsame else 4.0 * len(vs) * U * maxabs
+        dm = 0.0 if allsame else 4.0 * cnt * U * maxabs
         meanf, varf = float(mean), float(var)
         sigma = math.sqrt(varf)
-        dv = 2.0 * sigma * dm + dm * dm + 8.0 * len(vs) * U * varf
+        dv = 2.0 * sigma * dm + dm * dm + 8.0 * cnt * U * varf
         if all(outs[i] is None for i in idx):
             st.class_all_undefined += 1
-        if len(idx) == 1:
+        if cnt == 1:
             st.class_single += 1
         elif var == 0:
             st.class_zero_variance += 1
@@ -206,10 +211,12 @@ def gaussian_tags(outs, labels, ncl, st=None):
 # teams + evaluators
 # ---------------------------------------------------------------------------
 
-def documented(kind, mouts, labels, ncl, xslot, st=None):
+def documented(kind, mouts, labels, ncl, xslot, st=None, weights=None):
     """kind: dyn | gau | bin ; mouts: per member list of outputs.
-    -> dict(tags=[(label, confidence)], fitness, tol, wrong=[bool], ambiguous=bool)"""
+    -> dict(tags=[(label, confidence)], fitness, tol, wrong=[bool], ambiguous=bool)
+    `weights`: example i stands for weights[i] identical examples (fitness and statistics of the multiset)"""
     n = len(labels)
+    wt = weights if weights is not None else [1] * n
     per = []
     amb = False
     for outs in mouts:
@@ -217,10 +224,10 @@ def documented(kind, mouts, labels, ncl, xslot, st=None):
             t, a = binary_tags(outs)
             t = [(l, s, 0.0) for (l, s) in t]
         elif kind == "dyn":
-            t, a = dyn_slot_tags(outs, labels, ncl, xslot)
+            t, a = dyn_slot_tags(outs, labels, ncl, xslot, weights)
             t = [(l, s, 0.0) for (l, s) in t]
         else:
-            t, a = gaussian_tags(outs, labels, ncl, st)
+            t, a = gaussian_tags(outs, labels, ncl, st, weights)
         if a and not t:
             return {"ambiguous": True, "tags": [], "fitness": None, "tol": None, "wrong": []}
         amb = amb or a
@@ -247,11 +254,12 @@ def documented(kind, mouts, labels, ncl, xslot, st=None):
         tol = 1e-12
         for i in range(n):
             if wrong[i]:
-                fit -= 1.0
+                fit -= 1.0 * wt[i]
             else:
-                fit += (tags[i][1] - 1.0) / scale
-                tol += tags[i][2] / scale
+                fit += wt[i] * ((tags[i][1] - 1.0) / scale)
+                tol += wt[i] * (tags[i][2] / scale + 4 * U)
+        tol += 2.0 * U * sum(wt) * abs(fit)          # the running sum itself (n additions)
     else:
-        fit = -float(sum(1 for w in wrong if w))
+        fit = -float(sum(wt[i] for i, w in enumerate(wrong) if w))
         tol = 0.0
     return {"ambiguous": amb, "tags": [(t[0], t[1]) for t in tags], "fitness": fit, "tol": tol, "wrong": wrong}
